@@ -2,6 +2,13 @@
 power-levels event, NoEsc (written from the property statement) holds - on every 0/1/2-key variation of the
 Auth_gen.tla pl families (spec -> code) and on recorded random edits (code -> spec, Auth_trace.tla).
 TLC also checks the lemma AcceptedImpliesNoEsc on the specification's own rules.
+Family placcess: the same after the caller read the current (or the proposed) power levels through a public accessor
+(PDU.PowerLevels(), NewPowerLevelContentFromEvent / FromAuthEvents) and edited the value it got - the read-modify-write
+that builds the next power-levels event; the recorder does it at random too.
+Histories (AuthSeq_gen.tla, family plseq): every session of two power-levels events by alice / bob (one-key edits of the
+current content or of the initial one - a fork), judged one after the other against the evolving current levels through
+ONE reused checker driven as state resolution drives it (gmsl.NewVerifChecker: Clear + AddEvent, update(), allowed()) and
+through a fresh Allowed(): whichever accepts, NoEsc holds against the levels current at that time.
 
 Thorough tier, supplementary (never a verdict): the same lemma for ALL integer levels - spec/PLLemma.tla restates the
 rule and NoEsc over arbitrary integers, Apalache discharges "accepted => no escalation", "verdicts depend only on the
@@ -13,8 +20,9 @@ from checks import c08_lemma
 
 def run(ctx):
     ctx.repro_attempts = 6   # verdicts that depend on map iteration order are retried in fresh processes
-    auth.run_families(ctx, "c08", auth.FAMILIES_PL)
-    auth.record_and_validate(ctx, 16000 if ctx.tier == "quick" else 60000)
+    n = 16000 if ctx.tier == "quick" else 60000
+    auth.run_families(ctx, "c08", auth.FAMILIES_PL, record=n)
+    auth.record_and_validate(ctx, n)
     if ctx.tier == "thorough":
         lemma = c08_lemma.run_lemma(ctx)   # supplementary: never changes the exit code
         ctx.notes["lemma_unbounded"] = {k: lemma[k] for k in ("obligations", "discharged", "seconds", "statement") if k in lemma}
